@@ -112,7 +112,18 @@ SpreadCases == \A k \in {65, 300, 3000} : LET P == SpreadPats(k) IN
                        runs |-> AsSeq({r[1] * 10000 + r[2] * 100 + r[3] : r \in Runs(P, t)})]])
     /\ \A i \in SpreadAt(k) : \A key \in {P[i], P[i] \o <<45>>} :
         Emit([fn |-> "key", s |-> key, a |-> P, x |-> << <<Fwd(Len(P))>> >>, out |-> AsSeq({j \in 1..Len(P) : IsPrefix(key, P[j])})])
+\* three patterns inserted one after the other, the later ones sharing BYTES (not runes) with the earlier: an ASCII
+\* pattern of three bytes, then zhong / shi (two common bytes, the third differs), with and without an "a" in front
+TriplePool == {5, 6, 7, 9, 10, 17}     \* aba, zhong, a-zhong, shi, a-shi, baba
+Triples == {S \in SUBSET TriplePool : Cardinality(S) = 3}
+TripleTexts == {Pool[i] : i \in TriplePool} \cup {Pool[i] \o Pool[j] : i \in {6, 9}, j \in TriplePool} \cup {<<97, 98>> \o Rs, <<97, 98>> \o Rz \o Rs}
+TripleCases == \A S \in Triples : LET P == PatOf(S) IN \A t \in TripleTexts :
+    LET oc == Occ(P, t) IN
+    Emit([fn |-> "text", s |-> t, a |-> P, x |-> Schedules(Len(P)),
+          out |-> [match |-> oc # {}, occ |-> AsSeq({o[1] * 100 + o[2] : o \in oc}),
+                   runs |-> AsSeq({r[1] * 10000 + r[2] * 100 + r[3] : r \in Runs(P, t)})]])
 ASSUME TextCases
+ASSUME Mode = "valid" => TripleCases
 ASSUME Mode = "valid" => SpreadCases
 ASSUME Mode = "valid" => DeepCases
 ASSUME Mode = "valid" => WideCases
